@@ -4,11 +4,13 @@
    by computation) and Proofs/BeamformerHelpers.v (instance RO).
    Every model function is defined for ONE leading index; a stack is the function applied slice by slice
    (phase_corr_stack), which is what "stack = stack of slices" says; that the implementation really acts
-   this way is the correspondence check's business.  Finiteness of Souden/WMWF under singular PSDs is
-   binary64/LAPACK behaviour: explored on every run, not proved. *)
+   this way is the correspondence check's business.  Souden/WMWF under singular PSDs: what stable_solve returns
+   is LAPACK behaviour (explored on every run); what the code builds on top of ANY solve result is bounded here
+   (Proofs/Singular.v): |w| <= |phi| / eps resp. |phi| / mu, zero columns give zero filters, a bin sees only its
+   own solve result. *)
 From Coq Require Import Reals Lra List String.
 From Coquelicot Require Import Coquelicot.
-From PB Require Import Ops CLin Model.Beamformer Proofs.Beamformer Proofs.BeamformerNames Proofs.BeamformerHelpers.
+From PB Require Import Ops CLin Model.Beamformer Proofs.Beamformer Proofs.BeamformerNames Proofs.BeamformerHelpers Proofs.Singular.
 
 (* every name of the table (12 cores + ch0..ch29, each with and without "+ban") dispatches to the
    composition of primitives it spells -- for arbitrary primitives, i.e. whatever the keyword arguments do *)
@@ -71,6 +73,57 @@ Theorem C13_phase_corr_stack_slices (D : nat) (w : nat -> nat -> vec) (l f d : n
   phase_corr_stack RO D w l f d = phase_corr RO D (w l) f d.
 Proof. exact (phase_corr_stack_slices D w l f d). Qed.
 Print Assumptions C13_phase_corr_stack_slices.
+
+(* Souden MVDR on singular / zero PSD matrices: for EVERY solve result phi the returned vector is bounded by the solve
+   result over the clamp (|trace| is clamped below by eps = tiny > 0) ... *)
+Theorem C13_souden_bounded_by_solve (D : nat) (phi : mat) (eps : R) (r i : nat) : (0 < eps)%R ->
+  (Cmod (souden RO D phi eps r i) <= Cmod (phi i r) / eps)%R.
+Proof. exact (souden_bound D phi eps r i). Qed.
+Print Assumptions C13_souden_bounded_by_solve.
+
+(* ... the clamp only ever shrinks the filter ... *)
+Theorem C13_souden_clamp_shrinks (D : nat) (phi : mat) (eps : R) (r i : nat) : (0 < eps)%R -> (0 < Cmod (tr D phi))%R ->
+  (Cmod (souden RO D phi eps r i) <= Cmod (phi i r) / Cmod (tr D phi))%R.
+Proof. exact (souden_clamp_shrinks D phi eps r i). Qed.
+Print Assumptions C13_souden_clamp_shrinks.
+
+(* ... and a zero column of the solve result (zero target PSD; the zero returned for an all-zero system) is a zero filter *)
+Theorem C13_souden_zero_column (D : nat) (phi : mat) (eps : R) (r i : nat) :
+  phi i r = RtoC 0 -> souden RO D phi eps r i = RtoC 0.
+Proof. exact (souden_zero D phi eps r i). Qed.
+Print Assumptions C13_souden_zero_column.
+
+Theorem C13_wmwf_zero_column (D : nat) (phi : mat) (mu : R) (r i : nat) :
+  phi i r = RtoC 0 -> wmwf RO D phi mu r i = RtoC 0.
+Proof. exact (wmwf_zero D phi mu r i). Qed.
+Print Assumptions C13_wmwf_zero_column.
+
+(* WMWF with a positive distortion weight: bounded by the solve result over mu whenever the trace of the solve result has a
+   non-negative real part (Phi_nn^-1 Phi_xx of positive semidefinite matrices) *)
+Theorem C13_wmwf_bounded_by_solve (D : nat) (phi : mat) (mu : R) (r i : nat) : (0 < mu)%R -> (0 <= fst (tr D phi))%R ->
+  (Cmod (wmwf RO D phi mu r i) <= Cmod (phi i r) / mu)%R.
+Proof. exact (wmwf_bound D phi mu r i). Qed.
+Print Assumptions C13_wmwf_bounded_by_solve.
+
+(* bins with regular matrices are unaffected by singular neighbours: with an explicit reference channel the filter of bin
+   f is a function of the solve result of bin f alone *)
+Theorem C13_souden_bin_local (D : nat) (phi phi' : nat -> mat) (eps : R) (r f i : nat) :
+  (forall p q, phi f p q = phi' f p q) -> souden_stack D phi eps r f i = souden_stack D phi' eps r f i.
+Proof. exact (souden_stack_local D phi phi' eps r f i). Qed.
+Print Assumptions C13_souden_bin_local.
+
+Theorem C13_wmwf_bin_local (D : nat) (phi phi' : nat -> mat) (mu : R) (r f i : nat) :
+  (forall p q, phi f p q = phi' f p q) -> wmwf_stack D phi mu r f i = wmwf_stack D phi' mu r f i.
+Proof. exact (wmwf_stack_local D phi phi' mu r f i). Qed.
+Print Assumptions C13_wmwf_bin_local.
+
+(* the automatic reference channel is a channel, and one with the largest broadband SNR (first on ties) *)
+Theorem C13_ref_channel_argmax (D Fn : nat) (Wm Px Pn : nat -> nat -> nat -> C) (eps : R) (r : nat) :
+  (r < D)%nat ->
+  (ref_channel RO D Fn Wm Px Pn eps < D)%nat /\
+  (ref_snr RO D Fn Wm Px Pn eps r <= ref_snr RO D Fn Wm Px Pn eps (ref_channel RO D Fn Wm Px Pn eps))%R.
+Proof. exact (ref_channel_argmax D Fn Wm Px Pn eps r). Qed.
+Print Assumptions C13_ref_channel_argmax.
 
 (* non-vacuity: the table is not empty and contains the documented example name *)
 Example C13_hypotheses_satisfiable :
